@@ -315,8 +315,11 @@ def catalogue():
         "B": lambda: S.SkBaseTransformLearner(LogR(), "predict_proba"),
         "C": lambda: S.SkBaseTransformLearner(SS(), "transform"),
         "D": lambda: S.SkBaseTransformLearner(DTC(max_depth=2)),
-        "E": lambda: S.SkBaseTransformLearner(LinR(), "predict", tag="t", level=2, ratio=0.5, on=True)},
-        strs={"method": ["predict"]}, given={"E": dict(tag="t", level=2, ratio=0.5, on=True, method="predict")})
+        "E": lambda: S.SkBaseTransformLearner(LinR(), "predict", tag="t", level=2, ratio=0.5, on=True),
+        # free keyword parameters holding containers
+        "F": lambda: S.SkBaseTransformLearner(LinR(), "predict", grid=[0, 1], shape=(2, 3), opts={"a": 1, "b": 2}, nothing=None)},
+        strs={"method": ["predict"]}, given={"E": dict(tag="t", level=2, ratio=0.5, on=True, method="predict"),
+                                             "F": dict(grid=[0, 1], shape=(2, 3), opts={"a": 1, "b": 2}, nothing=None, method="predict")})
     add("SkBaseTransformStacking", "clf", {
         "A": lambda: S.SkBaseTransformStacking([LinR(), DTR(max_depth=2)], "predict"),
         "B": lambda: S.SkBaseTransformStacking([LogR(), DTC(max_depth=2)], "predict_proba"),
